@@ -100,7 +100,16 @@ CHECKS = {
               "tolerated unknown events, both engines, are validated against the spec."),
         design_ref="DESIGN.md 5 C14",
         technique="TLA+ spec + TLC MC + TLC trace validation with identity-classified results",
-    ),}
+    ),    "C17": dict(
+        category="model_checking",
+        text=("Copy(i, j) in the spec makes the clone's machine record equal to the original's (options, provider set, model content, pending "
+              "activation) and every later step changes one instance only; real histories with a deepcopy or pickle copy point (also before "
+              "activation of an async machine, also copies of copies) and diverging suffixes on original and clones are validated with the "
+              "projection of ALL instances compared after every call; clone.model must not be the original's."),
+        design_ref="DESIGN.md 5 C17",
+        technique="TLA+ spec (Copy action + frame condition) + TLC trace validation of multi-instance executions",
+    ),
+}
 
 NA_DEFAULT = "check not built yet (work in progress; will be claimed once its TLA+ model and conformance harness are committed)"
 NA = {}
